@@ -591,6 +591,21 @@ def const_guards(repo: Repo, chk: Check) -> None:
             for name, ts in (("target-is-tsl", ["isinstance($o.dest.type.layout, TiledStridedLayoutAttr)"]), ("target-static", ["not $o.dest.type.layout.data.is_dynamic()"]),
                              ("global-layout-none", ["isinstance($s.source.type.layout, builtin.NoneAttr)"])):
                 chk.result(bool(has_fact(first, ts)), "C12.const-guards", f"{g2.key}:{name}", first.where(), f"only under `{name}`")
+            # two types address the same data: the global's new layout (target tiles extended over the whole global) and the rebuilt subview's result layout
+            # (the target layout itself). They agree only if the global's layout starts at the same offset as the target layout
+            g2fl = Flow(g2, repo)
+            builds = [x for x in g2fl.calls("TiledStridedLayout") if x.reachable and not x.loops]
+            sub_types = [x for x in g2fl.calls("MemRefType") if x.reachable and len(x.node.args) >= 3 and isinstance(norm.primary(x.node.args[2]), ast.Name)
+                         and norm.contains(g2fl.cone(x.node.args[2], x, inline=0), T("$o.dest.type.layout"))]
+            if len(builds) != 1 or not sub_types:
+                raise AnalysisError(f"{g2.where}: the layout built for the global / the rebuilt subview's result type were not found")
+            b_ = builds[0]
+            off = b_.node.args[1] if len(b_.node.args) > 1 else next((k.value for k in b_.node.keywords if k.arg == "offset"), None)
+            tgt = ast.unparse(norm.primary(sub_types[0].node.args[2]))
+            ok = off is not None and norm.contains(g2fl.cone(off, b_, inline=0), T("$o.dest.type.layout.data.offset"))
+            chk.result(ok, "C12.const-guards", f"{g2.key}:global-offset", b_.where(), "the global's new layout keeps the offset of the target layout the subview result is typed with",
+                       f"the layout built for the global starts at offset {ast.unparse(off) if off is not None else '0 (default)'} while the rebuilt subview is typed with `{tgt}`, "
+                       "which carries the target offset: the data is placed at element 0 and read `offset` elements further")
 
 
 # --------------------------------------------------------------------------- dynamic sizes of the realised buffer
